@@ -192,11 +192,9 @@ class PatmaVisitor(ast.NodeVisitor):
         pattern_val = self.visitor.visit(node.value)
         self.check_impossible_pattern(node, pattern_val)
         if not isinstance(pattern_val, KnownValue):
-            self.visitor.show_error(
-                node,
-                f"Match value is not a literal: {pattern_val}",
-                ErrorCode.internal_error,
-            )
+            # A value pattern may be any dotted name (PEP 634); if its value is not
+            # statically known we cannot narrow, but that is not an error in the
+            # checked code and certainly not an internal one.
             return NULL_CONSTRAINT
 
         return self.make_constraint(
